@@ -205,6 +205,13 @@ func HC07_Unregister() {
 	// a new registration re-uses the freed id and works
 	cf4 := x.w.Cache().Register(bs[k].f)
 	x.sameSelection(&cf4, bs[k].f)
+	// the stale handle of the unregistered filter must not alias the new registration
+	pan, _ = vCatch(func() { x.w.Cache().Unregister(cfs[k]) })
+	vAssert(pan, "unregistering a stale handle panics also after later registrations")
+	pan, _ = vCatch(func() { q := x.w.Query(cfs[k]); q.Close() })
+	vAssert(pan, "using a stale handle panics also after later registrations")
+	x.sameSelection(&cf4, bs[k].f)
+	vAssert(x.w.Cache().Unregister(&cf4) == bs[k].f, "the later registration is intact")
 	x.inv()
 	vReach("end")
 }
